@@ -20,6 +20,7 @@ package dhcp
 //@ type Server
 //@   owns leasesMu: leases
 //@   owns leasesByCircuitIDMu: leasesByCircuitID
+//@   inv sep: self.leases != self.leasesByCircuitID
 
 //@ type Pool
 //@   owns mu: allocated available unavailable
@@ -175,6 +176,14 @@ package dhcp
 // pool are protected by different mutexes; that they stay in agreement between
 // the check and the insertion is not decided (see DESIGN.md).
 
+// Rebind moves a binding between holders (CPE replaced behind a relay circuit): the new holder has
+// exactly the address the old one had, the old holder has none, nobody else is touched.
+//@ func (p *Pool) Rebind
+//@   modifies p.allocated, p.available
+//@   ensures locked(macstr(oldMAC) in p.allocated) && macstr(oldMAC) != macstr(newMAC) ==> macstr(oldMAC) !in p.allocated && macstr(newMAC) in p.allocated && p.allocated[macstr(newMAC)] == locked(p.allocated[macstr(oldMAC)])
+//@   ensures forall m string :: m != macstr(oldMAC) && m != macstr(newMAC) ==> (m in p.allocated) == locked(m in p.allocated) && p.allocated[m] == locked(p.allocated[m])
+//@   ensures !locked(macstr(oldMAC) in p.allocated) || macstr(oldMAC) == macstr(newMAC) ==> dom(p.allocated) == locked(dom(p.allocated)) && vals(p.allocated) == locked(vals(p.allocated)) && p.available == locked(p.available)
+
 //@ func (p *Pool) IsAllocatedTo
 //@   modifies p.allocated, p.available, p.unavailable
 //@   ensures result == (locked(macstr(mac) in p.allocated) && ipkey(locked(p.allocated[macstr(mac)])) == ipkey(ip))
@@ -207,6 +216,10 @@ package dhcp
 //@   ghost markedUnavailable mathint = 0
 //@   ghost relSessions mathint = 0
 //@   ensures relPool == 0 && markedUnavailable == 0 && relSessions == 0
+// A lease found through the relay circuit-id may belong to another MAC (replaced CPE on the same
+// line). Acknowledging its address to the new MAC must not leave the old MAC's entry in the lease
+// table: "never holds two unexpired bindings on one address".
+//@   ensures s.acksTotal == old(s.acksTotal) + 1 && existingLease != nil && existingLease.MAC != nil && macstr(existingLease.MAC) != macstr(mac) ==> macstr(existingLease.MAC) !in s.leases
 //@   ensures s.acksTotal == old(s.acksTotal) + 1 ==> (existingLease != nil && ipkey(existingLease.IP) == ipkey(requestedIP)) || poolOwner == 1 || old(s.httpAllocator != nil && s.httpAllocatorPool != "")
 
 // The OFFER path of handleDiscover (the only place that increments offersTotal)
